@@ -74,6 +74,8 @@ def run(rep, tier):
         rep.call(index_rules.unwraps, rep, prog, "C03.unwrap")
         rep.call(index_rules.scratch_grow, rep, prog, "C03.scratch-grow")
         rep.call(index_rules.bounds_trim, rep, prog, "C03.bounds-trim")
+        from ..engines import emptytable
+        rep.call(emptytable.coeffs_nonempty, rep, prog, "C03.coeffs-nonempty")
         rep.call(storewidth.check, rep, prog, "C03.storewidth", storewidth.FLOOR.get(cfg, 40))
         rep.call(dispatch_rules.t_precision, rep, prog, "C03.precision", report_empty=False)
         rep.call(dispatch_rules.headroom, rep, prog, "C03.headroom")
